@@ -67,8 +67,26 @@ class NGen(TGen):
         if k < 0.85:
             return f"({self.e_str(d-1)})|{r.choice(['lower', 'string'])}"
         if k < 0.93:
-            return f"({self.e_list(d-1)})|join({self.lit_str()})"
+            lst = self.e_hlist() if r.random() < 0.6 else "(" + self.e_list(d-1) + ")"
+            return f"{lst}|join({self.lit_str()})"
         return f"({self.e_str(d-1)} if {self.e_cond(d-1)} else {self.e_str(d-1)})"
+
+    def e_hlist(self):
+        """heterogeneous list literal (only ever consumed by join, never printed as a list): literals, data
+        names (which may hold a set-block / macro result, i.e. Markup) and macro calls in any order"""
+        r = self.r
+        items = []
+        for _ in range(r.randint(0, 4)):
+            j = r.random()
+            if j < 0.2:
+                items.append(self.e_int(0))
+            elif j < 0.45:
+                items.append(self.lit_str())
+            elif j < 0.8 or not self.macros:
+                items.append(r.choice(self.names) + "|string")
+            else:
+                items.append(self.macro_call())
+        return "[" + ", ".join(items) + "]"
 
     def e_cond(self, d=2):
         r = self.r
